@@ -42,7 +42,7 @@ for k, nm in {1: "char", 2: "uchar_short", 3: "float"}.items():
     units.append(Unit("C06_types_" + nm, "harness/C06_types.cpp", defs=[f"-DC06_TYPES_PART={k}", "-DC06_SMALL=1"],
                       flavours={"quick": ["asan-cc"], "thorough": ["asan-cc", "plain-cc"]}, shards={"quick": 4, "thorough": 8}))
 # heterogeneous element / value (or second-range) types with a lossy conversion in one direction
-for k, nm in {1: "a", 2: "b"}.items():
+for k, nm in {1: "a", 2: "b", 3: "c", 4: "d"}.items():  # c, d: signed/unsigned pairs of equal width
     units.append(Unit("C06_hetero_" + nm, "harness/C06_hetero.cpp", defs=[f"-DC06_HET_PART={k}", "-DC06_SMALL=1"],
                       flavours={"quick": ["asan-cc"], "thorough": ["asan-cc"]}, shards={"quick": 4, "thorough": 8}))
 # element type with its own ADL swap (call counts / marks / no moves), and a swappable-only element type (probe)
@@ -74,6 +74,6 @@ P = dict(
     floor={"quick": 3000000, "thorough": 30000000},
     assumptions=["libstdc++ 12 <algorithm>/<numeric> are a correct reference for the specified part of each result",
                  "gcc 12 ASan/UBSan report every out-of-block access adjacent to an exact-size heap block",
-                 "element types: a small copyable struct (key, tag), a move-only twin whose self-move-assignment is destructive, heterogeneous pairs double/int, int/unsigned char, long long/int (both directions), a type with its own ADL swap, a swappable-only type, signed char/char/unsigned char/short/float through raw pointers, long long/int/unsigned char for numeric; other element types are not exercised",
+                 "element types: a small copyable struct (key, tag), a move-only twin whose self-move-assignment is destructive, heterogeneous pairs double/int, int/unsigned char, long long/int, int/unsigned, long long/unsigned long long, short/unsigned short (both directions), a type with its own ADL swap, a swappable-only type, signed char/char/unsigned char/short/float through raw pointers, long long/int/unsigned char for numeric; other element types are not exercised",
                  "predicate results: bool, and in the *_truthy units int masks (incl. negative) and a class implicitly convertible to bool (C++20 boolean-testable); explicit-only conversions are outside the standard's requirement and not exercised"],
 )
